@@ -221,4 +221,16 @@ example : PyPrec2 (.single (.rng ⟨some (finalV [3, 8]), some (finalV [3, 11]),
   simp [RC.bounds, RC.view, VRange.bounds, RC.min, RC.max] at he
   rcases he with rfl | rfl <;> simp [finalV]
 
+/-- **`only` only weakens**, through `validate`: the projection stays in the domain, and validates to true wherever
+the marker does. -/
+theorem only_weakens_validate {E : Env} {ex : List String} (hX : E.extras = some ex) {X Y Z : Nat}
+    (hE : EnvPy E X Y Z) (names : List String) (m r : M) (hg : M.Good (FullLeaf E) m)
+    (h : M.only names m = .ok r) (hm : M.validate E m = .ok true) :
+    M.Good (FullLeaf E) r ∧ M.validate E r = .ok true := by
+  have S := leafSpec_fullDomain hX hE
+  have hr := only_weakens S names m r hg h
+  have hev : ∀ x, M.Good (FullLeaf E) x → M.Evaluable E x := fun x hx =>
+    M.good_mono (fun l hl => fullLeaf_evaluable hX hE hl) x hx
+  exact ⟨hr.1, only_weakens_validate_partial E S names m r hg h (hev m hg) (hev r hr.1) hm⟩
+
 end Poetry.C17
